@@ -367,3 +367,69 @@ def repo_tests(ctx, prop, lanes=3):
     ctx.cov["evaluations"] += events
     log("repo-tests: %d/%d traces of nsqd's own tests accepted by NsqdAbs (%d events)" % (accepted, len(todo), events))
     return accepted
+
+
+def queue_scan(ctx, prop, runs, model=True):
+    """The scheduler behind every deadline (queueScanLoop / queueScanWorker): QueueScan.tla model-checked (selection, pool,
+    no idle spin, every due channel eventually scanned under a fair sampler), then real runs with more channels than
+    the selection count, channel churn and pool resizes: lateness of every pick-up measured on the client side
+    (property level), the recorded scheduler events validated against QueueScanTrace (implementation level)."""
+    import subprocess
+    from concurrent.futures import ThreadPoolExecutor
+    if model:
+        ctx.model_check("QueueScan", "QueueScan_mc.cfg", timeout=600)
+        r = ctx.tlc("QueueScan", "QueueScan_live.cfg", timeout=900, label="QueueScan liveness (fair sampler)")
+        if not r.ok:
+            raise Inconclusive("QueueScan_live.cfg: %s\n%s" % (r.violated, r.out[-1500:]))
+        ctx.cov["states"] += r.distinct
+        ctx.cov["transitions"] += r.generated
+    h = ctx.harness("core")
+
+    def one(i):
+        d = os.path.join(ctx.scratch, "qscan-%d" % i)
+        os.makedirs(d, exist_ok=True)
+        rep, tr = os.path.join(d, "report.json"), os.path.join(d, "trace.ndjson")
+        try:
+            p = subprocess.run([h, "qscan", "--seed", str(ctx.seed * 1000 + i), "--out", tr, "--report", rep, "--dir", d],
+                               cwd=ctx.scratch, env=ctx.goenv(), capture_output=True, text=True, timeout=300)
+        except subprocess.TimeoutExpired:
+            return None, "timeout"
+        if not os.path.exists(rep):
+            return None, (p.stdout + p.stderr)[-1500:]
+        return json.load(open(rep)), (p.stdout + p.stderr)[-1500:]
+
+    reports = []
+    with ThreadPoolExecutor(max_workers=4) as ex:
+        for rep, err in ex.map(one, range(runs)):
+            if rep is None:
+                if "panic:" in err or "fatal error:" in err:
+                    ctx.violation("the daemon panicked in the queue-scan scenario: " + err[-600:],
+                                  ctx.save_replay("qscan-crash", {"stderr": err}), key="qscan:crash")
+                else:
+                    ctx.notes.setdefault("inconclusive_runs", []).append("qscan: " + err[-300:])
+                continue
+            reports.append(rep)
+    alltr = os.path.join(ctx.scratch, "qscan-all.ndjson")
+    ok = 0
+    with open(alltr, "w") as out:
+        for rep in reports:
+            if rep.get("inconclusive"):
+                ctx.notes.setdefault("inconclusive_runs", []).append(rep["scenario"] + ": " + rep["inconclusive"])
+                continue
+            for f in rep.get("fails") or []:
+                tags = re.findall(r"\[(C\d+)\]", f[:20])
+                text = re.sub(r"^(\[C\d+\])+ ", "", f)
+                if prop in tags:
+                    ctx.violation("run {%s}: %s" % (rep["scenario"], text), ctx.save_replay("qscan-late", rep), key="qscan:late")
+                else:
+                    print("OTHER-PROPERTY: queue-scan run breaks a clause of %s: %s" % ("+".join(tags), text[:200]), flush=True)
+            ok += 1
+            ctx.cov["evaluations"] += rep["events"]
+            out.write(open(rep["trace"]).read())
+    if ok == 0:
+        raise Inconclusive("no queue-scan run completed: %s" % ctx.notes.get("inconclusive_runs", [])[:3])
+    ctx.validate_trace("QueueScanTrace", "QueueScanTrace.cfg", alltr, ok, "queue-scan", timeout=1800, level="shape")
+    ctx.notes["qscan_runs"] = [{k: rep[k] for k in ("scenario", "rounds", "rounds_without_tick", "refreshes", "deliveries", "worst_late_ms", "bound_ms")}
+                               for rep in reports[:12]]
+    for rep in reports[:2]:
+        ctx.sample({"qscan_run": {k: rep[k] for k in ("scenario", "rounds", "deliveries", "worst_late_ms")}})
